@@ -393,7 +393,7 @@ def run_check(prop, tier):
             probes["lockstep_mismatching_runs"] += len(mismatch)
             unexplained = 0
             for i, h1, h2 in mismatch[:int(cfg.get("lockstep_explain_cap", 300))]:
-                run = mod.generate(R.rng_for(seed, prop, i), cfg)
+                run = mod.generate(R.rng_for(seed, prop, i), dict(cfg, _index=i))
                 sig, detail = lockstep_sig(prop, pool, run, h1, h2)
                 if sig is None:
                     print(f"HARNESS-ERROR: lock-step mismatch of run {i} not reproducible: {detail}", flush=True)
@@ -429,7 +429,7 @@ def run_check(prop, tier):
                 # does it need what the same worker interpreter executed before this run?
                 chunk = int(cfg.get("chunk", 200))
                 first = (v["index"] // chunk) * chunk
-                earlier = [mod.generate(R.rng_for(seed, prop, j), cfg) for j in range(first, v["index"])]
+                earlier = [mod.generate(R.rng_for(seed, prop, j), dict(cfg, _index=j)) for j in range(first, v["index"])]
                 small, history, info = minimise_history(prop, mod, v["run"], v["sig"], hss[0], earlier)
                 if info.get("reproduced"):
                     kind = "history"
@@ -448,7 +448,7 @@ def run_check(prop, tier):
                 os.unlink(path)
                 chunk = int(cfg.get("chunk", 200))
                 first = (v["index"] // chunk) * chunk
-                earlier = [mod.generate(R.rng_for(seed, prop, j), cfg) for j in range(first, v["index"])]
+                earlier = [mod.generate(R.rng_for(seed, prop, j), dict(cfg, _index=j)) for j in range(first, v["index"])]
                 small, history, info = minimise_history(prop, mod, v["run"], v["sig"], hss[0], earlier)
                 if info.get("reproduced"):
                     kind = "history"
@@ -496,7 +496,7 @@ def run_check(prop, tier):
     evals = runs * len(hash_seeds)
     samples = []
     for i in range(min(3, runs)):
-        run = mod.generate(R.rng_for(seed, prop, i), cfg)
+        run = mod.generate(R.rng_for(seed, prop, i), dict(cfg, _index=i))
         samples.append({"run_index": i, "cfg": run.get("cfg"), "trace": _clip(run["trace"])})
     state_total = getattr(mod, "STATE_SPACE", None)
     evidence = {
